@@ -21,7 +21,7 @@ from fractions import Fraction
 
 PID = "C06"
 TITLE = "Meshes have value semantics: copy, merge and transforms never alias"
-LEAN_MODULES = ["Mouette.Props.C06"]
+LEAN_MODULES = ["Mouette.Props.C06", "Mouette.Props.C06Source"]
 REQUIRED_THEOREMS = [
     "copy_equal_disjoint", "merge_is_disjoint_union", "merge_indices_in_block", "transform_exact", "inplace_exact",
     "alias_free_run", "translate_round_trip", "scale_round_trip", "rotate_round_trip", "legacy_merge_aliases", "normalize_bbox",
@@ -31,12 +31,21 @@ REQUIRED_THEOREMS = [
     # round 3: translated fragments of transform.py / merge, histories on one object
     "gen_translate_eq", "gen_scale_eq", "gen_rotate_eq", "gen_scaleXyz_eq", "gen_normalize_eq", "gen_merge_eq",
     "transform_twice", "copy_of_copy", "merge_with_own_copy",
+    # round 4: bridges from the function BODIES translated imperatively from the working tree (Generated/C06Src.lean), and the
+    # headline theorems restated about the translated definitions
+    "translate_bridge", "scale_bridge", "rotate_bridge", "scaleXyz_bridge", "scaleXyz_default_bridge", "flatten_bridge",
+    "normalize_bridge", "fitIntoUnitCube_bridge", "translateToOrigin_bridge", "mergeBody_bridge", "mergeRun_bridge",
+    "src_translate_round_trip", "src_scale_round_trip", "src_rotate_round_trip", "src_normalize_bbox", "src_transforms_alias_free",
 ]
 TRUSTED = [
     "Lean 4.33.0 kernel; axioms ⊆ {propext, Classical.choice, Quot.sound}",
     "hand-written model Mouette/Model/MeshHeap.lean (heap of Rat^3 cells, meshes = lists of references; rebinding vs in-place "
     "update) tied to mesh.py copy/merge and geometry/transform.py by the whole-state correspondence of this run: every mesh "
-    "is observed after every operation",
+    "is observed after every operation; [round 4] translator vlib/gen/c06_translate.py: the BODIES of translate, rotate, scale, "
+    "scale_xyz, flatten, normalize, fit_into_unit_cube, translate_to_origin and the loop of merge are compiled statement by "
+    "statement into Generated/C06Src.lean over the vocabulary Model/MeshSource.lean (rebinding `mesh.vertices[i] = e` vs in-place "
+    "`mesh.vertices[i][c] = x`, loops as folds over id_vertices) and proved equal to the model's operations (Props/C06Source.lean); "
+    "copy is still hand-modelled",
     "floating point: coordinates compared to the exact rational answer with |impl - exact| <= 1e-9*scale + 1e-12 (2e-6*scale when binary32 vertex arrays or parameters are involved); "
     "scipy Rotation.from_matrix on rational orthogonal matrices is trusted to apply that matrix",
     "numpy view/copy rules observed from outside (np.shares_memory, values of every mesh after every op)",
@@ -47,7 +56,8 @@ ASSUMPTIONS = [
     "producers (procedural generators, loaders, boundary extraction) are monitored for alias-freedom, not modelled",
     "normalize is only exercised on meshes whose bounding box is not a point",
 ]
-RULE = ("[round 3: parameters offered as int / float Vec, tuples, lists, numpy int32/int64/float32 arrays and numpy scalars, a "
+RULE = ("[round 4: `fit_into_unit_cube` driven as well as `normalize(.., False)`; a transform that produces non-finite coordinates is "
+        "reported as wrong coordinates] [round 3: parameters offered as int / float Vec, tuples, lists, numpy int32/int64/float32 arrays and numpy scalars, a "
         "vertex OBJECT of the mesh itself as translation vector / origin, rotations as matrix / scipy Rotation / Euler quarter "
         "turns (list, tuple); vertex arrays float32 / int32 / Fortran-ordered / strided / read-only / tuples / ndarray rows; the same "
         "transform twice, copies of copies, merge of a mesh with its own copy / with itself; parameter objects compared by value "
@@ -193,8 +203,17 @@ def _mesh_elements(m):
             _elts(m.cells) if hasattr(m, "cells") else [])
 
 
+def _qf(x):
+    """exact value of a float coordinate; a non-finite one (a transform divided by zero) becomes a huge finite sentinel so that it is
+    REPORTED as a wrong coordinate instead of crashing the harness"""
+    x = float(x)
+    if x != x: return Fraction(10 ** 31)
+    if x in (float("inf"), float("-inf")): return Fraction(10 ** 30) * (1 if x > 0 else -1)
+    return Fraction(x)
+
+
 def _coords(m):
-    return [[Fraction(float(x)) for x in v] for v in m.vertices]
+    return [[_qf(x) for x in v] for v in m.vertices]
 
 
 def _fmt_elts(l):
@@ -206,7 +225,7 @@ def _attr_rows(m):
     import numpy as np
     if not m.vertices.has_attribute("w"): return None
     a = np.asarray(m.vertices.get_attribute("w").as_array(len(m.vertices))).reshape(-1, 3)
-    return [[Fraction(float(x)) for x in row] for row in a]
+    return [[_qf(x) for x in row] for row in a]
 
 
 def _conn_probe(m):
@@ -296,7 +315,9 @@ def _apply(meshes, arrays, op):
                 if before is not None and (after is None or after.shape != before.shape or not np.array_equal(after, before)):
                     raise _ParamChanged()
         elif k == "flatten": T.flatten(meshes[op[1]], op[2])
-        elif k == "normalize": T.normalize(meshes[op[1]], center_at_zero=bool(op[2]))
+        elif k == "normalize":
+            if not op[2] and _opt(op).get("via") == "fit": T.fit_into_unit_cube(meshes[op[1]])      # documented alias of normalize(.., False)
+            else: T.normalize(meshes[op[1]], center_at_zero=bool(op[2]))
         elif k == "toorigin": T.translate_to_origin(meshes[op[1]])
         elif k == "edit": meshes[op[1]].vertices[op[2]][op[3]] = float(Fraction(op[4]))
         else: raise ValueError(k)
@@ -690,6 +711,43 @@ def _oracle_producer(case):
             out.append({"key": f"C06/translate/wrong-coords/producer/{name}", "what": f"translate does not move every vertex of `{name}` exactly once",
                         "detail": f"vertex {a}: {p} + {t} -> {[float(x) for x in v]}"})
             return out
+    return out + _oracle_derived(name, t)
+
+
+def _oracle_derived(name, t):
+    """round 4 — "transforms never alias ... whatever way the mesh was produced": a mesh DERIVED from another mesh / from caller
+    vectors (boundary extraction, procedural.triangle) is transformed with the rebinding transforms in their DEFAULT-parameter form
+    (scale / rotate about the default origin, translate) FIRST THING after its creation; what it was derived from must not move."""
+    import numpy as np
+    import mouette as M
+    P, V = M.procedural, M.Vec
+    if name not in ("boundary_of_surface", "boundary_of_volume", "triangle"): return []
+    out = []
+    R = np.array([[0., -1., 0.], [1., 0., 0.], [0., 0., 1.]])
+    for opname, apply in (("scale", lambda m: M.transform.scale(m, 2.)), ("rotate", lambda m: M.transform.rotate(m, R)),
+                          ("translate", lambda m: M.transform.translate(m, V(*t)))):
+        try:
+            if name == "triangle":
+                src = [V(0.5, 0.25, 1.), V(1., 0., 2.), V(0., 1., 3.)]
+                m = P.triangle(*src)
+                snap = lambda: [[float(x) for x in v] for v in src]
+            else:
+                base = P.unit_grid(3, 4, triangulate=True) if name == "boundary_of_surface" else \
+                    P.tetrahedron(V(0.5, 0., 0.), V(1., 0., 0.), V(0., 1., 0.), V(0., 0., 1.), volume=True)
+                m = (M.processing.extract_boundary_of_surface if name == "boundary_of_surface" else M.processing.extract_boundary_of_volume)(base)
+                if isinstance(m, tuple): m = next(x for x in m if hasattr(x, "vertices"))
+                snap = lambda: [[float(x) for x in v] for v in base.vertices]
+            before = snap()
+            apply(m)
+            after = snap()
+        except Exception:  # noqa  (a producer / transform that fails is reported by the other clauses)
+            continue
+        if before != after:
+            a = next(i for i, (p, q) in enumerate(zip(before, after)) if p != q)
+            out.append({"key": f"C06/alias/transform/{opname}/source-moved/{name}",
+                        "what": f"`{opname}` (default parameters) of a mesh produced by `{name}` also moves what the mesh was derived from",
+                        "detail": f"source vertex / caller vector {a}: {before[a]} -> {after[a]}"})
+            return out
     return out
 
 
@@ -844,6 +902,8 @@ def _decorate(rng, case):
             if v == "from_arrays" and rng.random() < 0.45: op[1] = rng.choice(["from_arrays_f32", "from_arrays_fortran", "from_arrays_strided", "from_arrays_readonly"])
             elif v == "from_arrays_int" and rng.random() < 0.4: op[1] = "from_arrays_i32"
             elif v == "raw" and rng.random() < 0.3: op[1] = rng.choice(["raw_tuple", "raw_nd"])
+        elif k == "normalize" and not op[2] and not isinstance(op[-1], dict) and rng.random() < 0.5:
+            op.append({"via": "fit"})            # round 4: the alias `fit_into_unit_cube` is driven too
         elif k in ("translate", "scale", "scalexyz", "rotate"):
             i = op[1]; nv = len(sh[i]["V"]); d = {}
 
@@ -927,6 +987,7 @@ def classify(case, obs):
             if len({dims[j] for j in op[1]}) > 1: ks.append("merge:mixed-kinds")
             dims.append(max(dims[j] for j in op[1]))
         if op[0] == "copyx": ks.append(f"copyx:attrs={int(bool(op[2]))}/conn={int(bool(op[3]))}")
+        if op[0] == "normalize" and _opt(op).get("via") == "fit": ks.append("via:fit_into_unit_cube")
         if op[0] in ("copy", "copyx"):
             if op[1] in cps: ks.append("copy:of-a-copy")
             cps[len(dims) - 1] = op[1]
@@ -1007,6 +1068,8 @@ def _vexpr(node, names):
     if isinstance(node, ast.BinOp) and isinstance(node.op, ast.Mult):
         if isinstance(node.left, ast.Name) and node.left.id in names and names[node.left.id] in ("k",):
             return f"(V3.smul k ({_vexpr(node.right, names)}))"
+        if isinstance(node.right, ast.Name) and node.right.id in names and names[node.right.id] in ("k",):
+            return f"(V3.smul k ({_vexpr(node.left, names)}))"
         raise T.TranslateError("only <scalar factor> * <vector> is understood")
     if isinstance(node, ast.UnaryOp) and isinstance(node.op, ast.USub): return f"(({_vexpr(node.operand, names)}).neg)"
     if isinstance(node, ast.Call) and isinstance(node.func, ast.Name) and node.func.id == "Vec" and len(node.args) == 1:
@@ -1033,15 +1096,23 @@ def _sexpr(node, names):
 
 
 def _vertex_loop(fn):
-    """the `for i in mesh.id_vertices:` loop of a transform; returns its body statements"""
-    import ast
+    """the `for <v> in mesh.id_vertices:` loop of a transform; returns its body statements with the loop variable renamed `i`
+    (the name of the loop variable is irrelevant)"""
+    import ast, copy
     from .. import translate as T
     loops = [st for st in fn.body if isinstance(st, ast.For)]
     if len(loops) != 1: raise T.TranslateError(f"{fn.name}: expected exactly one loop, found {len(loops)}")
-    lp = loops[0]
-    ok = (isinstance(lp.target, ast.Name) and lp.target.id == "i" and isinstance(lp.iter, ast.Attribute) and lp.iter.attr == "id_vertices"
+    lp = copy.deepcopy(loops[0])
+    ok = (isinstance(lp.target, ast.Name) and isinstance(lp.iter, ast.Attribute) and lp.iter.attr == "id_vertices"
           and isinstance(lp.iter.value, ast.Name) and lp.iter.value.id == "mesh" and not lp.orelse)
     if not ok: raise T.TranslateError(f"{fn.name}: loop is not `for i in mesh.id_vertices`")
+    var = lp.target.id
+    if var != "i":
+        if any(isinstance(x, ast.Name) and x.id == "i" for st in lp.body for x in ast.walk(st)):
+            raise T.TranslateError(f"{fn.name}: loop variable `{var}` next to another name `i`")
+        for st in lp.body:
+            for x in ast.walk(st):
+                if isinstance(x, ast.Name) and x.id == var: x.id = "i"
     return lp.body
 
 
@@ -1053,8 +1124,8 @@ def _rebinding(fn, names, pre=None):
     body = list(_vertex_loop(fn))
     names = dict(names)
     if pre and len(body) == 2 and isinstance(body[0], ast.Assign) and isinstance(body[0].targets[0], ast.Name) \
-            and body[0].targets[0].id == pre and _is_vertex_i(body[0].value):
-        names[pre] = "p"; body = body[1:]
+            and body[0].targets[0].id not in names and _is_vertex_i(body[0].value):
+        names[body[0].targets[0].id] = "p"; body = body[1:]          # a local alias of the current vertex, whatever its name
     if len(body) != 1 or not isinstance(body[0], ast.Assign) or len(body[0].targets) != 1 or not _is_vertex_i(body[0].targets[0]):
         raise T.TranslateError(f"{fn.name}: the loop body is not a single rebinding `mesh.vertices[i] = <expr>` "
                                f"({'in-place update' if body and isinstance(body[0], ast.AugAssign) else 'other shape'})")
@@ -1066,8 +1137,8 @@ def _default_orig(fn, want):
     import ast
     from .. import translate as T
     for st in fn.body:
-        if isinstance(st, ast.If) and isinstance(st.test, ast.Compare) and isinstance(st.test.left, ast.Name) and st.test.left.id == "orig" \
-                and isinstance(st.test.ops[0], ast.Is) and isinstance(st.test.comparators[0], ast.Constant) and st.test.comparators[0].value is None:
+        if isinstance(st, ast.If) and isinstance(st.test, ast.Compare) and isinstance(st.test.ops[0], ast.Is) \
+                and sorted([ast.unparse(st.test.left), ast.unparse(st.test.comparators[0])]) == ["None", "orig"]:
             if len(st.body) == 1 and isinstance(st.body[0], ast.Assign) and ast.unparse(st.body[0].value).replace(" ", "") == want:
                 return want
     raise T.TranslateError(f"{fn.name}: default origin `{want}` not recognised")
@@ -1164,14 +1235,16 @@ def translate():
             want = f"merged.{kind}+=[tuple((vertex_offset+uforuinx))forxin{var}.{kind}]"
             got = ast.unparse(st.body[0]).replace(" ", "")
             import re
-            got_n = re.sub(r"foruin(\w+)\)\)for\1in", "foruinx))forxin", got)
+            got_n = re.sub(r"\(\((\w+)\+vertex_offsetfor\1in", r"((vertex_offset+\1for\1in", got)      # u+off = off+u
+            got_n = re.sub(r"vertex_offset\+(\w+)for\1in(\w+)\)\)for\2in", "vertex_offset+uforuinx))forxin", got_n)
             if t != f"hasattr({var},'{kind}')" or got_n != want:
                 raise T.TranslateError(f"merge: element block for `{kind}` not recognised: {got[:80]}")
             kinds.append(kind)
         if kinds != ["edges", "faces", "cells"]: raise T.TranslateError(f"merge: element kinds {kinds}")
         # 3. the running offset advances by the number of vertices of EVERY input, after its elements were shifted
         last = ast.unparse(body[-1]).replace(" ", "")
-        if last != f"vertex_offset+=len({var}.vertices)":
+        if last not in (f"vertex_offset+=len({var}.vertices)", f"vertex_offset=vertex_offset+len({var}.vertices)",
+                        f"vertex_offset=len({var}.vertices)+vertex_offset"):
             raise T.TranslateError(f"merge: last statement of the loop is not the unconditional offset update: {last[:60]}")
         chunks["merge"] = ("/-- `merge`: index shift applied to every element index, offset update per input -/\n"
                            "def mergeShift (vertex_offset u : Nat) : Nat := vertex_offset + u\n"
@@ -1185,7 +1258,50 @@ def translate():
                 + "\n".join(chunks[k] for k in ("translate", "scale", "rotate", "scalexyz", "normalize", "merge"))
                 + "\nend Mouette.Generated.C06\n")
         T.write_generated("C06", body)
-    return sites
+    # ---- round 4: whole function bodies, read imperatively (vlib/gen/c06_translate.py -> Generated/C06Src.lean)
+    from ..gen import c06_translate as SRC
+    src_sites, src_body, _ = SRC.translate_sites()
+    if src_body is not None:
+        T.write_generated("C06Src", src_body)
+    return sites + src_sites
+
+
+# ------------------------------------------------------------------------------------------------
+# SOURCE_MAP: every function of the five anchor files.  "translated" = its body is compiled into Generated/C06*.lean on every
+# run AND a bridge theorem of Props/C06.lean / Props/C06Source.lean is stated about that definition.
+# ------------------------------------------------------------------------------------------------
+_M, _T, _V, _R, _D = ("mouette/mesh/mesh.py::", "mouette/geometry/transform.py::", "mouette/geometry/vector.py::",
+                      "mouette/procedural/rings.py::", "mouette/mesh/mesh_data.py::RawMeshData.")
+_OOS_VEC = "out-of-scope: vector algebra helper, no mesh state (C12)"
+_OOS_PREP = "out-of-scope: connectivity preparation of a raw mesh (C02)"
+SOURCE_MAP = {
+    _M + "_instanciate_raw_mesh_data": "oracle-only",       # every producer goes through it; outputs inspected for shared vectors
+    _M + "load": "oracle-only", _M + "save": "out-of-scope: file output (C04)",      # loaders are among the 37 monitored producers
+    _M + "from_arrays": "oracle-only",                      # caller-array aliasing clause of the oracle, 8 array representations
+    _M + "copy": "modelled",                                # Model.MeshHeap.copyMesh / MeshCopy (attributes, connectivity switches)
+    _M + "merge": "translated",                             # mergeBody / mergeRun; mergeBody_bridge, mergeRun_bridge, gen_merge_eq
+    _M + "reorder_vertices": "out-of-scope: builds a new mesh through from_arrays-like paths; not in the statement",
+    _T + "translate": "translated",                         # translate_bridge, src_translate_round_trip
+    _T + "rotate": "translated",                            # rotate_bridge, src_rotate_round_trip (argument coercion checked by shape)
+    _T + "scale": "translated",                             # scale_bridge, src_scale_round_trip
+    _T + "scale_xyz": "translated",                         # scaleXyz_bridge, scaleXyz_default_bridge
+    _T + "normalize": "translated",                         # normalize_bridge, src_normalize_bbox
+    _T + "fit_into_unit_cube": "translated",                # fitIntoUnitCube_bridge
+    _T + "translate_to_origin": "translated",               # translateToOrigin_bridge
+    _T + "flatten": "translated",                           # flatten_bridge (dim given; the `dim is None` variance block only binds locals)
+    _V + "Vec.__new__": "modelled",                         # view-vs-copy rule: rebinding allocates, Vec(x) of an array is a view (MeshHeap)
+    _V + "Vec.zeros": "modelled",                           # default origin V3.zero
+    _V + "Vec.x": "modelled", _V + "Vec.y": "modelled", _V + "Vec.z": "modelled",   # components used by scale_xyz
+    _R + "ring": "oracle-only", _R + "flat_ring": "oracle-only",      # producers: no vector object under two vertex ids
+    _D + "__init__": "oracle-only", _D + "id_vertices": "modelled",     # `range(len(vertices))`: MeshSrc.idVertices
+    _D + "_prepare_vertices": "oracle-only",                            # Vec(x) views of caller rows: the from_arrays / raw families
+}
+for _n in ("from_complex", "random", "X", "Y", "Z", "xy", "norm", "dot", "outer", "normalize", "normalized"):
+    SOURCE_MAP[_V + "Vec." + _n] = _OOS_VEC
+for _n in ("id_edges", "id_faces", "id_cells", "id_facecorners", "id_cellcorners", "dimensionality", "_compute_dimensionality", "prepare",
+           "_prepare_edges", "_prepare_edges.is_valid", "_prepare_faces", "_generate_face_corners", "_prepare_cells", "_generate_cell_corners",
+           "_generate_cell_faces", "_complete_edges_from_faces", "_complete_faces_from_cells"):
+    SOURCE_MAP[_D + _n] = _OOS_PREP
 
 
 MANIFEST = {
